@@ -378,13 +378,16 @@ def run(ctx):
     wgots = sorted({'\n'.join(t) for n_t in (1, 2) for t in _it.product(wp, repeat=n_t)})
     wwants = sorted({m.join(t) for t in _it.product(wp + [''], repeat=2) for m in ('...', ' ... ', '\n...\n')})
     wwants = [t for t in wwants if t and t == t.strip() and '...' in t]
+    # (also with the <BLANKLINE> marker accepted - the default -: these texts hold no marker, so nothing else changes)
+    strict_on_bl = directive.RuntimeState({'ELLIPSIS': True, 'NORMALIZE_WHITESPACE': False, 'NORMALIZE_REPR': False,
+                                           'IGNORE_WHITESPACE': False, 'DONT_ACCEPT_BLANKLINE': False})
     for w in wwants:
         for g in wgots:
             non += 1
             exp = (g == w) or spec_ellmatch(g, w)
-            if bool(checker.check_output(g, w, strict_on)) != exp:
+            if bool(checker.check_output(g, w, strict_on)) != exp or bool(checker.check_output(g, w, strict_on_bl)) != exp:
                 ctx.violation('ellipsis-enabled-relation', {
-                    'what': "with ELLIPSIS on and every other leniency off check_output is %s, the wildcard relation says %s (white space other than blank/tab at line ends)" % (not exp, exp),
+                    'what': "with ELLIPSIS on and every other leniency off check_output is %s, the wildcard relation says %s (white space other than blank/tab at line ends; marker accepted or not)" % (not exp, exp),
                     'got': g, 'want': w, 'theorem_or_correspondence': 'C06_ellipsis_iff lifted to check_output(+ELLIPSIS)'}, True)
                 break
         if len([v for v in ctx.violations if v['kind'] == 'ellipsis-enabled-relation']) > 2:
